@@ -16,14 +16,14 @@ from kverif.common import Deadline, case_rng, stable_hash, tier_value
 ID = 'C08'
 LEVEL = 'exploration'
 RULE = ('worlds 2-6; group mixtures per communicator (WORLD, pairs, triples, distinct groups of equal size sharing a rank); 1-12 tensors per cycle, 1-D/2-D/3-D shapes, '
-        'dtypes {float32,float64,bfloat16} incl. mixed-dtype sequences, average/symmetric flags, capacities {1 byte, < one tensor, between, > all}, 1-4 fill/flush cycles (4 % of the cases 12-30 cycles), '
+        'dtypes {float32,float64,bfloat16,int32,int64} incl. mixed-dtype sequences (an averaged integer tensor resolves to the promoted float dtype, like the unbucketed call), average/symmetric flags, capacities {1 byte, < one tensor, between, > all}, 1-4 fill/flush cycles (4 % of the cases 12-30 cycles), '
         'per-rank different interleavings across groups, all scheduler policies, line-level callback stress; non-trivial: >=2 tensors share a bucket or >=2 groups are used; '
         'distinct = hash(group mixture, capacity class, flag pattern)')
 ASSUMPTIONS = ['all members of a group submit the same tensors for that group in the same order (the API\'s contract)',
                'simdist stands in for the c10d backend; a few worlds per shard run the same per-rank program as real gloo processes (value oracle only, completion callbacks on gloo threads)']
 REQUIRED = ['value_checks', 'segmentation_checks', 'multi_tensor_buckets', 'multi_group_runs']
 
-DTS = {'float32': 4, 'float64': 8, 'bfloat16': 2}
+DTS = {'float32': 4, 'float64': 8, 'bfloat16': 2, 'int32': 4, 'int64': 8}
 
 
 def make_plan(rng):
@@ -48,7 +48,8 @@ def make_plan(rng):
         canon = lambda g: tuple(range(W)) if g is None else tuple(g)  # noqa: E731
         groups = [g for i, g in enumerate(groups) if canon(g) not in [canon(x) for x in groups[:i]]]
     mixed_dtype = rng.random() < 0.25
-    base_dt = rng.choice(['float32', 'float64', 'bfloat16'])
+    base_dt = rng.choice(['float32', 'float64', 'bfloat16', 'float32', 'float64', 'bfloat16', 'int32', 'int64'])
+    all_dts = ['float32', 'float64', 'bfloat16'] + (['int32', 'int64'] if rng.random() < 0.3 else [])
     real_valued = rng.random() < 0.3
     cycles = []
     long_run = rng.random() < 0.04   # many fill/flush cycles on one communicator: state that only goes wrong after a long history
@@ -63,7 +64,7 @@ def make_plan(rng):
                 shape = rng.choice([(0,), (0, 3), (2, 0)])   # zero-element tensors are tensors too
             else:
                 shape = tuple(rng.randint(1, 5) for _ in range(rng.randint(1, 3)))
-            dt = rng.choice(['float32', 'float64', 'bfloat16']) if mixed_dtype else base_dt
+            dt = rng.choice(all_dts) if mixed_dtype else base_dt
             items.append(dict(g=rng.randrange(len(groups)), shape=shape, sym=sym, avg=rng.random() < 0.5, dtype=dt))
         cycles.append(items)
     sizes = [packed_numel(it) * DTS[it['dtype']] for c in cycles for it in c]
@@ -176,10 +177,12 @@ def value_checks(plan, results, res, case, mech_for, where=''):
                 if t.shape != exp.shape:
                     return res.violation(where + f'cycle {ci} tensor {ti} on rank {r}: future resolved to shape {tuple(t.shape)}, input shape {tuple(exp.shape)}', case, mechanism=mech_for('shape'))
                 if t.dtype != exp.dtype:
-                    return res.violation(where + f'cycle {ci} tensor {ti} on rank {r}: future resolved to dtype {t.dtype}, input dtype {exp.dtype}', case, mechanism=mech_for('dtype'))
+                    return res.violation(where + f'cycle {ci} tensor {ti} on rank {r}: future resolved to dtype {t.dtype}; an unbucketed allreduce of that tensor gives {exp.dtype} (input dtype {it["dtype"]}, average={it["avg"]})', case, mechanism=mech_for('dtype'))
                 if exp.numel() == 0:
                     continue   # a zero-element tensor: shape and dtype (checked above) are all there is
-                if plan['real'] or it['dtype'] == 'bfloat16':
+                if not exp.dtype.is_floating_point:
+                    ok = torch.equal(t, exp)   # integer sums are exact
+                elif plan['real'] or it['dtype'] == 'bfloat16':
                     ok = torch.allclose(t.double(), exp.double(), rtol=4 * float(torch.finfo(exp.dtype).eps) * len(mem), atol=1e-30 + 4 * float(torch.finfo(exp.dtype).eps) * float(exp.abs().max()))
                 else:
                     ok = torch.equal(t, exp)
@@ -188,7 +191,8 @@ def value_checks(plan, results, res, case, mech_for, where=''):
                                          f'(max dev {(t.double() - exp.double()).abs().max().item():.3g})', case, mechanism=mech_for('value'))
                 d = dgot[ti]
                 res.count('differential_checks')
-                if d.shape != t.shape or d.dtype != t.dtype or not torch.allclose(d.double(), t.double(), rtol=8 * float(torch.finfo(exp.dtype).eps), atol=1e-30 + 8 * float(torch.finfo(exp.dtype).eps) * float(exp.abs().max())):
+                feps = float(torch.finfo(exp.dtype).eps) if exp.dtype.is_floating_point else 0.0
+                if d.shape != t.shape or d.dtype != t.dtype or not torch.allclose(d.double(), t.double(), rtol=8 * feps, atol=1e-30 + 8 * feps * float(exp.abs().max())):
                     return res.violation(where + f'cycle {ci} tensor {ti} on rank {r}: bucketed result differs from the unbucketed allreduce of the same tensor', case, mechanism=mech_for('value'))
     return True
 
